@@ -466,16 +466,26 @@ func firstInstr(fn *ssa.Function) ssa.Instruction {
 // error built by a method of *errors.Error on one of the package-level Err*
 // values is never nil.
 func absValueErr(v ssa.Value, f pathFacts) byte {
+	return absValueErrSeen(v, f, map[ssa.Value]bool{})
+}
+
+func absValueErrSeen(v ssa.Value, f pathFacts, seen map[ssa.Value]bool) byte {
 	if a := absValue(v, f); a != 0 {
 		return a
 	}
 
 	if ph, ok := v.(*ssa.Phi); ok {
+		if seen[ph] {
+			return 0
+		}
+
+		seen[ph] = true
+
 		// all inputs agree?
 		var out byte
 
 		for i, e := range ph.Edges {
-			a := absValueErr(e, f)
+			a := absValueErrSeen(e, f, seen)
 			if a == 0 {
 				return 0
 			}
